@@ -743,8 +743,11 @@ static void cc_check(const Json& c, Out& o) {
     Geo g;
     if (!decode_geo(c, g, o)) return;
     Rng r(c.getu("seed"));
-    const std::vector<cd> x = coh_x(r, g.N, r.coin());
-    double a = r.logmag(-3, 3);
+    std::vector<cd> x = coh_x(r, g.N, r.coin());
+    // the claim is scale-free: overall amplitude 10^amp (amp in -40..40) and copy factors down to 1e-12 / up to 1e12
+    const double amp = std::pow(10.0, double(c.geti("amp", 0)));
+    if (amp != 1.0) for (auto& v : x) v *= amp;
+    double a = c.geti("wide", 0) ? r.logmag(-12, 12) : r.logmag(-3, 3);
     if (c.geti("neg", 0)) a = -a;
     if (c.geti("pow2", 0)) a = std::ldexp(a < 0 ? -1.0 : 1.0, r.range(-10, 10));
     std::vector<cd> y(x.size());
@@ -764,10 +767,12 @@ static void cc_check(const Json& c, Out& o) {
                fmt("y = %.6g x but mscohere[%d]=%.17g (nfft=%d winlen=%d overlap=%d N=%ld segments=%d %s form=%d)", a, wk, C[wk], g.nfft, g.L, g.nov, g.N, g.nseg, g.wlabel.c_str(), g.form));
     geo_labels(g, o);
     o.label(a < 0 ? "scale:negative" : "scale:positive");
-    if (g.nseg >= 2) o.nontrivial(key_of(g.nfft, g.L, ov_bucket(g.nov, g.L), std::min(g.nseg, 9), g.wfam, g.form, int(a < 0)));
+    o.label(c.geti("amp", 0) == 0 ? "amplitude:1" : c.geti("amp", 0) < 0 ? "amplitude:1e-40..1e-1" : "amplitude:1e1..1e40");
+    o.label(std::fabs(a) < 1e-3 ? "copy-factor:<1e-3" : std::fabs(a) > 1e3 ? "copy-factor:>1e3" : "copy-factor:1e-3..1e3");
+    if (g.nseg >= 2) o.nontrivial(key_of(g.nfft, g.L, ov_bucket(g.nov, g.L), std::min(g.nseg, 9), g.wfam, g.form, int(a < 0), c.geti("amp", 0), c.geti("wide", 0)));
 }
 static void cc_gen(Ctx& ctx) {
-    ctx.rc("random", ctx.by_tier(40000, 300000), [&]() { return coh_geo(ctx).set("neg", pick(0, 1)).set("pow2", int(pick(0, 3) == 0)).set("swap", pick(0, 1)).set("seed", (long long)seed64()); });
+    ctx.rc("random", ctx.by_tier(40000, 300000), [&]() { return coh_geo(ctx).set("neg", pick(0, 1)).set("pow2", int(pick(0, 3) == 0)).set("swap", pick(0, 1)).set("amp", pick(0, 2) == 0 ? 0 : pick(-40, 40)).set("wide", pick(0, 1)).set("seed", (long long)seed64()); });
 }
 
 VK_FRESH_THREADS;
